@@ -287,9 +287,14 @@ class PG:
             return ("cls", c, pos, [])
         c = self.pick(USER_CLS)
         npos = self.draw(st.sampled_from([0, 1, 1, 2, 2, 3]))
+        kwsel = self.draw(st.sampled_from([[], [], ["y"], ["x"], ["z"], ["x", "y"], ["q"]]))
+        if c == "One" and self.draw(st.booleans()):
+            npos, kwsel = 1, ["x"]          # the only positional attribute is named again by keyword
+        elif c == "Dup" and self.draw(st.booleans()):
+            npos, kwsel = 2, []             # __match_args__ itself repeats the name
         pos = [self.sub(depth - 1) for _ in range(npos)]
         kws = []
-        for nm in self.draw(st.sampled_from([[], [], ["y"], ["x"], ["z"], ["x", "y"], ["q"]])):
+        for nm in kwsel:
             kws.append((nm, self.sub(depth - 1)))
         return ("cls", c, pos, kws)
 
